@@ -379,7 +379,8 @@ def gen_cases(ck):
     # corpus
     d = common.VERIF / "harness" / "corpus" / PROP
     corpus = [json.loads(f.read_text()) for f in sorted(d.glob("*.json"))] if d.is_dir() else []
-    return corpus + cases
+    # (history cases of the corpus are run by the history stream, harness/corr/_c05_hist.py)
+    return [c for c in corpus if c.get("stream") != "history"] + cases
 
 
 # ----------------------------------------------------------------- model side
@@ -570,6 +571,12 @@ def run(ck: common.Check):
             # recognised is necessary for acceptance (only prefix states are reported by the driver)
             if not idx and p["verdict"] in ("new", "old", "WRONG") and not m["rec"][k]:
                 ck.corr_broken("C05:recognised-not-necessary", {**c, "fail_at": k}, p["verdict"], "model: not recognised")
+    # ---- histories of writes, each with at most one fault, on one target (torn pre-states)
+    from harness.corr import _c05_hist as HI
+
+    htasks = HI.gen_tasks(ck)
+    hresults = common.pmap(HI.run_task, htasks, chunksize=1)
+    n_points += HI.judge(ck, hresults, drv)
     ck.extra.update(transitions=n_points, traces_validated_against_impl=n_traces, fault_points=n_points, fault_verdicts=verdicts, faults_with_concurrent_siblings=n_batch,
                     cases_total=len(cases), cases_without_model_input=no_model)
     ck.extra["explanation"] = (
@@ -596,6 +603,10 @@ def K_key(pk):
 
 
 def replay(rp):
+    if rp["case"].get("stream") == "history":
+        from harness.corr import _c05_hist as HI
+
+        return HI.replay_case(rp["case"])
     c = dict(rp["case"])
     k = c.pop("fail_at", None)
     c["faults"] = k is not None
